@@ -76,12 +76,12 @@ func (C11) Runs(tier string) int {
 func (C11) Meta() core.Meta {
 	return core.Meta{
 		Level: "exploration",
-		Rule: "a case = list of 1..6 recipients, each native (X25519, ssh-ed25519, ssh-rsa: no labels; scrypt: fresh random label) or sim-owned with an interface variant (Recipient only / RecipientWithLabels returning nil / empty / a duplicate-free list in some order) and optionally an injected wrap failure; the differing or failing recipient is placed at every position. Oracle: Encrypt succeeds iff all label sets are equal and no wrap failed; on refusal the destination saw zero Write calls; on success every real recipient decrypts. Non-trivial = at least two recipients or a failure; distinct = distinct recipient-list skeletons.",
-		Assumptions: []string{"label lists are duplicate-free (the property speaks of sets)", "plugin recipients' labels are exercised in the C16 engine, not here"},
+		Rule: "a case = list of 1..6 recipients, each native (X25519, ssh-ed25519, ssh-rsa: no labels; scrypt: fresh random label) or sim-owned with an interface variant (Recipient only / RecipientWithLabels returning nil / empty / a list in some order, possibly repeating a label) and optionally an injected wrap failure; the differing or failing recipient is placed at every position. Oracle: Encrypt succeeds iff all label sets are equal and no wrap failed; on refusal the destination saw zero Write calls; on success every real recipient decrypts. Non-trivial = at least two recipients or a failure; distinct = distinct recipient-list skeletons.",
+		Assumptions: []string{"label lists may repeat a label; where the set reading and the sorted-list reading of 'same labels' disagree nothing is asserted about acceptance (only that a refusal wrote nothing)", "plugin recipients' labels are exercised in the C16 engine, not here"},
 		Real:        []string{"filippo.io/age Encrypt (label comparison, wrap loop, header marshal)", "native recipients"},
 		Stub:        []string{"sim-owned recipients with chosen label lists / injected wrap failure", "destination (write-call counter)", "crypto/rand.Reader (tape)"},
 		FaultKinds:  []string{"fault.wrap_failure"},
-		Probes:      []string{"probe.equal_sets_different_order", "probe.proper_subset", "probe.disjoint", "probe.empty_vs_absent", "probe.scrypt_with_other", "probe.two_scrypt", "probe.refused_labels", "probe.refused_wrap_failure", "probe.accepted", "probe.fail_at_last_position", "probe.differ_at_last_position"},
+		Probes:      []string{"probe.equal_sets_different_order", "probe.proper_subset", "probe.disjoint", "probe.empty_vs_absent", "probe.scrypt_with_other", "probe.two_scrypt", "probe.refused_labels", "probe.refused_wrap_failure", "probe.accepted", "probe.fail_at_last_position", "probe.differ_at_last_position", "probe.repeated_label_same_multiset", "probe.repeated_label_sets_differ", "probe.repeated_label_ambiguous"},
 	}
 }
 
@@ -120,7 +120,24 @@ func (C11) Generate(r *core.RNG, tier string, idx uint64) interface{} {
 	}
 	// perturb one position
 	pos := r.Intn(n)
-	switch r.Intn(8) {
+	switch r.Intn(10) {
+	case 8: // a label repeated inside one list: same multiset everywhere (must be accepted) ...
+		if len(base) > 0 {
+			rep := append(shuffled(base), base[r.Intn(len(base))])
+			for i := range p.Recips {
+				if p.Recips[i].Variant == "list" {
+					p.Recips[i].Labels = shuffled(rep)
+				}
+			}
+		}
+	case 9: // ... or a list of the same length that repeats one label and drops another (sets differ: must be refused)
+		if len(base) > 1 {
+			ls := shuffled(base)
+			ls[0] = ls[1]
+			p.Recips[pos] = LRecip{Variant: "list", Labels: ls, XKey: 5}
+		} else {
+			p.Recips[pos] = LRecip{Variant: "list", Labels: []string{"dup", "dup"}, XKey: 5}
+		}
 	case 0: // nothing: all equal
 	case 1:
 		p.Recips[pos].Fail = true
@@ -183,10 +200,24 @@ func (C11) Shrinks(plan interface{}) []interface{} {
 	return out
 }
 
+// setKey: the label list as a multiset (sorted with repeats).
 func setKey(ls []string) string {
 	s := append([]string(nil), ls...)
 	sort.Strings(s)
 	return strings.Join(s, "\x00")
+}
+
+// pureSetKey: the label list as a set (sorted, repeats removed).
+func pureSetKey(ls []string) string {
+	s := append([]string(nil), ls...)
+	sort.Strings(s)
+	var out []string
+	for i, x := range s {
+		if i == 0 || x != s[i-1] {
+			out = append(out, x)
+		}
+	}
+	return strings.Join(out, "\x00")
 }
 
 func (e C11) Execute(plan interface{}, c *core.Ctx) *core.Verdict {
@@ -196,7 +227,7 @@ func (e C11) Execute(plan interface{}, c *core.Ctx) *core.Verdict {
 	// model: label set per recipient ("*" marks a fresh random label no one else can share)
 	expectOK := true
 	anyFail := false
-	var sets []string
+	var sets, pure []string
 	skeleton := ""
 	for i, lr := range p.Recips {
 		var set string
@@ -221,12 +252,28 @@ func (e C11) Execute(plan interface{}, c *core.Ctx) *core.Verdict {
 				recips = append(recips, &simLabeled{sp, append([]string(nil), lr.Labels...)})
 				set = setKey(lr.Labels)
 			}
+			if lr.Variant == "list" {
+				pure = append(pure, pureSetKey(lr.Labels))
+			} else {
+				pure = append(pure, "")
+			}
 			skeleton += fmt.Sprintf("%s%v%v,", lr.Variant, lr.Labels, lr.Fail)
 			if lr.Fail {
 				anyFail = true
 			}
 		}
 		sets = append(sets, set)
+		if len(pure) < len(sets) {
+			pure = append(pure, set)
+		}
+	}
+	// Lists with a repeated label: the statement speaks of sets, the code compares sorted lists. Where the two
+	// readings disagree (equal as sets, different as multisets) nothing is asserted about acceptance.
+	ambiguous := false
+	for i := range sets {
+		if (sets[i] == sets[0]) != (pure[i] == pure[0]) {
+			ambiguous = true
+		}
 	}
 	allEqual := true
 	for i := range sets {
@@ -280,6 +327,16 @@ func (e C11) Execute(plan interface{}, c *core.Ctx) *core.Verdict {
 		c.Stats.Inc("probe.scrypt_with_other")
 	}
 	expectOK = allEqual && !anyFail
+	for _, lr := range p.Recips {
+		if lr.Variant == "list" && pureSetKey(lr.Labels) != setKey(lr.Labels) {
+			if allEqual {
+				c.Stats.Inc("probe.repeated_label_same_multiset")
+			} else if !ambiguous {
+				c.Stats.Inc("probe.repeated_label_sets_differ")
+			}
+			break
+		}
+	}
 
 	d := seam.NewDisk(nil, c.Log)
 	restore := seam.NewTape(p.Tape).Install()
@@ -300,8 +357,11 @@ func (e C11) Execute(plan interface{}, c *core.Ctx) *core.Verdict {
 	if anyFail {
 		c.Stats.Inc("fault.wrap_failure")
 	}
+	if ambiguous {
+		c.Stats.Inc("probe.repeated_label_ambiguous")
+	}
 	if err != nil {
-		if expectOK {
+		if expectOK && !ambiguous {
 			return core.Fail("C11.refused_compatible", "Encrypt refused a list whose label sets are all equal and where no wrap failed: %v; list %s", err, skeleton)
 		}
 		if anyFail {
@@ -317,7 +377,7 @@ func (e C11) Execute(plan interface{}, c *core.Ctx) *core.Verdict {
 		}
 		return nil
 	}
-	if !expectOK {
+	if !expectOK && !ambiguous {
 		why := "label sets differ"
 		if anyFail {
 			why = "a recipient failed to wrap"
